@@ -7,7 +7,7 @@ RULE = ('cases = random multi-user histories (2-4 users related as owner/shared/
         '(orphans), over file sets with heavy content overlap; after every command the real object set is lifted to the layer-1 '
         'state and compared with Model/Repo.exec; every remaining snapshot is restored by its owner and compared with ground truth; '
         'non-trivial = at least 3 commands of at least 2 kinds; distinct = distinct command sequence')
-WEIGHTS = {'snapshot': 5, 'repeat': 1, 'pair': 1, 'delete': 3, 'delete_foreign': 1, 'clean': 2, 'orphans': 1}
+WEIGHTS = {'snapshot': 5, 'repeat': 1, 'pair': 1, 'delete': 3, 'delete_foreign': 1, 'clean': 2, 'orphans': 1, 'flaky_gc': 1}
 CHECKS = {'restore', 'frame'}
 KINDS = None   # all violation kinds are C02-relevant when a remaining snapshot is damaged
 
@@ -17,7 +17,7 @@ def _run(ctx, n, nops, rep):
     repo_hist.run_batch(seeds, ctx.scratch, rep, nops=nops, weights=WEIGHTS, checks=CHECKS,
                         concurrent=ctx.rng.choice([1, 2, 3]), delay=0.001)
     rep.violations[:] = [v for v in rep.violations if v['signature']['kind'] in
-                         ('restore_mismatch', 'referenced_chunk_missing', 'gc_overreach', 'exception', 'unknown_object')]
+                         ('restore_mismatch', 'referenced_chunk_missing', 'gc_overreach', 'exception', 'unknown_object', 'failed_gc_mutated')]
 
 
 def run(ctx) -> Report:
